@@ -58,7 +58,10 @@ for m in sorted(glob.glob('seeded/*/meta.json')):
     sid = m.split('/')[1]
     meta = json.load(open(m))
     need = str(meta.get('needs_to_manifest', ''))[:260].replace('|', '\\|').replace('\n', ' ')
-    out.append('| %s | %s | %s |' % (sid, need, det.get(sid, 'not yet run')))
+    dv = det.get(sid, 'not yet run')
+    if isinstance(dv, dict):
+        dv = dv['result'] + (' (earlier rounds: ' + '; '.join(h[:90] for h in dv['history']) + ')' if dv.get('history') else '')
+    out.append('| %s | %s | %s |' % (sid, need, str(dv).replace('|', '\\|')))
 out.append(open('tools/design_asbuilt_tail.md').read().rstrip('\n'))
 # ---- trusted base from evidence
 out.append('''
